@@ -159,14 +159,31 @@ const c17Rule = "case = shared reified node (sharded directory with cold cache /
 func TestC17_P_ConcurrentReads(t *testing.T) {
 	ev := newEvid(t, c17Rule)
 	rapid.Check(t, func(t *rapid.T) {
-		kind := rapid.SampledFrom([]string{"hamt-cold", "hamt-cold", "hamt-warm", "file", "file-oldstyle", "hamt-cold-faulty", "file-wide", "plaindir-wide", "hamt-cold-flaky", "file-oldstyle-measured", "file-slowroot"}).Draw(t, "kind")
+		kind := rapid.SampledFrom([]string{"hamt-cold", "hamt-cold", "hamt-warm", "file", "file-oldstyle", "hamt-cold-faulty", "file-wide", "plaindir-wide", "hamt-cold-flaky", "file-oldstyle-measured", "file-slowroot", "linkmap-wide"}).Draw(t, "kind")
 		st := NewStore()
 		st.Yield = rapid.Bool().Draw(t, "yieldingStore") // every load gives up the processor, as a store blocking on I/O does
 		var root cid.Cid
 		var names []string
 		var tree *ShardNode
 		var content []byte
-		if kind == "plaindir-wide" {
+		if kind == "linkmap-wide" {
+			// a dag-pb node without UnixFS data (reified as the generic link map) with dozens to hundreds of named links
+			n := rapid.SampledFrom([]int{47, 48, 49, 100, 255, 256, 300}).Draw(t, "linkmapLinks")
+			var links []LinkInfo
+			for i := 0; i < n; i++ {
+				names = append(names, fmt.Sprintf("entry-%05d", i))
+				e := entryFor(names[i], 0)
+				links = append(links, LinkInfo{Name: strp(e.Name), Tsize: u64p(1), Cid: e.Cid})
+			}
+			raw := encodePBRaw(links, nil, false)
+			c, err := pbProto.Prefix.Sum(raw)
+			if err != nil {
+				t.Fatalf("harness: %v", err)
+			}
+			st.Put(c, raw)
+			root = c
+			tree = &ShardNode{Cid: root}
+		} else if kind == "plaindir-wide" {
 			// a plain (unsharded) directory with more than a thousand entries: still far below the automatic sharding threshold
 			n := rapid.SampledFrom([]int{1023, 1024, 1025, 1500, 3000}).Draw(t, "plainEntries")
 			es := make([]entrySpec, n)
@@ -858,6 +875,63 @@ func TestC17_R_NodeKeptFromAFailedPreloadUsedConcurrently(t *testing.T) {
 			if e != "" {
 				t.Fatalf("C17: node kept from a preload that failed at shard #%d, shared by %d goroutines once storage is healthy: goroutine %d: %s", missing, G, g, e)
 			}
+		}
+	}
+}
+
+// Thousands of positioned reads by sixteen goroutines, each with readers of its own, on one shared file node with several
+// hundred links: every read returns the bytes at its position.
+func TestC17_R_ManyPositionedReadsOnAWideNode(t *testing.T) {
+	st := NewStore()
+	data := lcgBytes(600*3-1, 5, 0)
+	root, _, err := buildFile(st, data, "size-3", 600)
+	if err != nil {
+		t.Fatal(err)
+	}
+	n, err := loadReified(st.LinkSystem(), root, "unixfs")
+	if err != nil {
+		t.Fatal(err)
+	}
+	const G, reads = 16, 6000
+	errs := make([]string, G)
+	var wg sync.WaitGroup
+	start := make(chan struct{})
+	for g := 0; g < G; g++ {
+		wg.Add(1)
+		go func(g int) {
+			defer wg.Done()
+			<-start
+			p, _ := safe(func() {
+				rs, err := n.(datamodel.LargeBytesNode).AsLargeBytes()
+				if err != nil {
+					errs[g] = err.Error()
+					return
+				}
+				x := uint32(g*2654435761 + 12345)
+				buf := make([]byte, 4)
+				for i := 0; i < reads; i++ {
+					x = x*1664525 + 1013904223
+					off := int64(x>>8) % int64(len(data)-4)
+					if _, err := rs.Seek(off, io.SeekStart); err != nil {
+						errs[g] = fmt.Sprintf("seek %d: %v", off, err)
+						return
+					}
+					if k, err := io.ReadFull(rs, buf); err != nil || !bytes.Equal(buf, data[off:off+4]) {
+						errs[g] = fmt.Sprintf("read #%d at %d returned %d bytes %x (err %v), the file has %x there", i, off, k, buf[:k], err, data[off:off+4])
+						return
+					}
+				}
+			})
+			if p != nil {
+				errs[g] = fmt.Sprintf("panic: %v", p)
+			}
+		}(g)
+	}
+	close(start)
+	c17Wait(&wg, "positioned reads on a wide node")
+	for g, e := range errs {
+		if e != "" {
+			t.Fatalf("C17: %d goroutines making %d positioned reads each on one shared node of 600 links: goroutine %d: %s", G, reads, g, e)
 		}
 	}
 }
